@@ -7,7 +7,9 @@ namespace coloquinte {
 
 DetailedPlacement DetailedPlacement::fromIspdCircuit(const Circuit &circuit) {
   // Represent fixed cells with -1 width so they are not considered
-  int rowHeight = circuit.rowHeight();
+  // Without rows there is nothing to optimize: legalization only accepts such
+  // a circuit when it has no movable cell
+  int rowHeight = circuit.nbRows() > 0 ? circuit.rowHeight() : 0;
   std::vector<int> widths = circuit.cellWidth_;
   std::vector<Rectangle> obstacles;
   for (int c = 0; c < circuit.nbCells(); ++c) {
